@@ -91,7 +91,7 @@ def gen_cases(c):
     for name, tree, events in load_corpus():
         cases.append({'tree': tree, 'words': [events], 'origin': 'corpus:' + name})
     quick = c.tier == 'quick'
-    nrand = 700 if quick else 16000
+    nrand = 700 if quick else 12000
     nwide = 32 if quick else 400
     ncorpus = len(cases)
     for k in range(nrand):
@@ -462,7 +462,7 @@ def cli_agrees(vd, cases, idxs, wdir):
 DONE_HEX = 'done.state.'.encode().hex()
 
 
-def explain(vm, x, word, craw, mraw, lv, fv, vflags, tr):
+def explain(vm, x, word, craw, mraw, lv, fv, vflags, tr, trf):
     """the set of reasons why the generated machine's view differs from the interpreter's (large engine):
     defect switches of CGen that influence this run; then, with all switches repaired in the model, whether the
     remainder is the behaviour of the fast engine (the template is its algorithm) or something else"""
@@ -480,7 +480,7 @@ def explain(vm, x, word, craw, mraw, lv, fv, vflags, tr):
     rep = views[-1]
     if compare_views(rep, lv, tr, tr) is None:
         return reasons
-    if compare_views(rep, fv, tr, tr) is None:
+    if compare_views(rep, fv, trf, trf) is None:
         i = first_diff(lv, fv)
         a = lv[i] if i is not None and i < len(lv) else ''
         b = fv[i] if i is not None and i < len(fv) else ''
@@ -646,7 +646,7 @@ def run(c):
         tr = truncated(craw, CFUEL) or truncated(lraw, FUEL)
         d = compare_views(cv_, lv, tr, tr)
         if d is not None:
-            for r in explain(vm, x, x['words'][j], craw, mraw, lv, fv, vflags, tr):
+            for r in explain(vm, x, x['words'][j], craw, mraw, lv, fv, vflags, tr, tr or truncated(fraw, FUEL)):
                 oracle.setdefault(r, []).append((i, j, d))
                 multi[(i, j)] = multi.get((i, j), 0) + 1
     mark('judged')
@@ -792,7 +792,8 @@ def search_harder(c, vd, cases, idxs):
             cv_, lv = c_view(craw), interp_view(lraw, vmap)
             d = compare_views(cv_, lv, tr, tr)
             # a difference the fast engine shares is one of the inherited classes, not what we are looking for
-            if d is not None and compare_views(cv_, interp_view(canon(fl)[0], vmap), tr, tr) is not None:
+            trf = tr or truncated(canon(fl)[0], FUEL)
+            if d is not None and compare_views(cv_, interp_view(canon(fl)[0], vmap), trf, trf) is not None:
                 return (x, w, {'kind': 'oracle', 'class': 'found-by-search-around-model-disagreement',
                                'generated_machine': ' '.join(cv_[max(0, d - 10):d + 10]), 'expected_interpreter': ' '.join(lv[max(0, d - 10):d + 10])})
     return None
